@@ -71,6 +71,18 @@ def drive(binary, seed, n, events, out, only=None):
     return json.loads(so.strip().splitlines()[-1])
 
 
+def trace_cfgs(prop, k=8):
+    """(strict, relaxed) config texts judging only the predicates that state this property: TLC stops at the first
+    violated predicate of a state, so another property's predicate must not be able to mask this one's."""
+    invs = [n for n, ps in INV_PROPS.items() if prop in ps and n.startswith("Inv")]
+    props = [n for n, ps in INV_PROPS.items() if prop in ps and n.startswith("Prop")]
+    def one(strict):
+        return ("CONSTANTS\n K = %d\n Zero = \"0000000000000000000000000000000000000000\"\n NoId = \"\"\n Strict = %s\n"
+                "SPECIFICATION TraceSpec\n%s%sCONSTRAINT HW\nPOSTCONDITION Accepted\nCHECK_DEADLOCK FALSE\n"
+                % (k, strict, ("INVARIANTS " + " ".join(invs) + "\n") if invs else "", ("PROPERTIES " + " ".join(props) + "\n") if props else ""))
+    return one("TRUE"), one("FALSE")
+
+
 def corrupt(prop):
     def f(lines):
         for i, l in enumerate(lines):
@@ -145,7 +157,7 @@ def run(prop, tier, seed, replay=None):
                     lines.append(l.replace('"seg":%d' % sg, '"seg":%d' % (segbase + sg), 1))
                 segbase += mx + 1
             vlib.write_lines(merged, lines)
-            tv = vlib.validate_trace("Trace_RoutingTable", ("Trace_RoutingTable.cfg", "Trace_RoutingTable_relaxed.cfg"), merged, INV_PROPS, timeout=3000)
+            tv = vlib.validate_trace("Trace_RoutingTable", trace_cfgs(prop), merged, INV_PROPS, timeout=3000)
             return "net", merged, dict(histories=segbase, events=len(lines)), tv, events
         if s == "exhreplay":
             out = os.path.join(wd, "trace-exhreplay.ndjson")
@@ -154,7 +166,7 @@ def run(prop, tier, seed, replay=None):
             if rc != 0:
                 raise vlib.Inconclusive("replay of one exhaustive-exploration transition failed (rc=%s): %s" % (rc, (se or "")[-2000:]))
             st = json.loads(so.strip().splitlines()[-1])
-            tv = vlib.validate_trace("Trace_RoutingTable", ("Trace_RoutingTable_k2.cfg", "Trace_RoutingTable_k2_relaxed.cfg"), out, INV_PROPS, timeout=600)
+            tv = vlib.validate_trace("Trace_RoutingTable", trace_cfgs(prop, 2), out, INV_PROPS, timeout=600)
             return "exh", out, st, tv, events
         if s == "exh":
             out = os.path.join(wd, "trace-exh.ndjson")
@@ -164,14 +176,14 @@ def run(prop, tier, seed, replay=None):
                     return "exh", out, dict(crash=(se or "")[-6000:]), None, events
                 raise vlib.Inconclusive("exhaustive routing-table exploration failed (rc=%s): %s" % (rc, (se or "")[-3000:]))
             st = json.loads(so.strip().splitlines()[-1])
-            tv = vlib.validate_trace("Trace_RoutingTable", ("Trace_RoutingTable_k2.cfg", "Trace_RoutingTable_k2_relaxed.cfg"), out, INV_PROPS,
+            tv = vlib.validate_trace("Trace_RoutingTable", trace_cfgs(prop, 2), out, INV_PROPS,
                                      timeout=3000)
             return "exh", out, st, tv, events
         out = os.path.join(wd, "trace-%d.ndjson" % s)
         st = drive(binary, s, n, events, out, only)
         if "crash" in st:
             return s, out, st, None, events
-        tv = vlib.validate_trace("Trace_RoutingTable", ("Trace_RoutingTable.cfg", "Trace_RoutingTable_relaxed.cfg"), out, INV_PROPS,
+        tv = vlib.validate_trace("Trace_RoutingTable", trace_cfgs(prop), out, INV_PROPS,
                                  timeout=1500)
         return s, out, st, tv, events
 
@@ -181,7 +193,7 @@ def run(prop, tier, seed, replay=None):
     driver_errors = []
     base = [r for r in results if r[0] not in ("exh", "net") and r[3] is not None]
     if not replay and base:
-        st_ = vlib.binding_selftest("Trace_RoutingTable", ("Trace_RoutingTable.cfg", "Trace_RoutingTable_relaxed.cfg"), base[0][1], corrupt(prop), INV_PROPS)
+        st_ = vlib.binding_selftest("Trace_RoutingTable", trace_cfgs(prop), base[0][1], corrupt(prop), INV_PROPS)
         cov["binding_selftest"] = st_
         log("  binding self-test: %s -> %s" % (st_["what"], "rejected, as required" if st_["detected"] else "NOT NOTICED"))
         if not st_["detected"]:
